@@ -975,7 +975,7 @@ func (x *c02Run) mutate() {
 	// policy changes
 	var pols []*c02Policy
 	for _, k := range c02SortedKeys(w.Policies) {
-		if p := w.Policies[k]; p.Name != "c02-all" {
+		if p := w.Policies[k]; p.Name != "c02-all" && p.Name != "ptimed" {
 			pols = append(pols, p)
 		}
 	}
@@ -1409,7 +1409,7 @@ type c02Scen struct {
 func TestVerif_C02_Concurrent(t *testing.T) {
 	seed := kit.Seed(2)
 	shard, _ := kit.Shard()
-	r := kit.NewResult(t, "c02-concurrent", seed, "one configuration change P (policy rewrite allow->deny / deny->allow, policy delete, token revoke, entity disable) runs concurrently with one request R that depends on it, under the storage-operation gate (all interleavings with <=2 preemptions up to a run cap, then seeded PCT schedules), after R was issued once sequentially (caches warm); R must either reach the handler and succeed, or be refused with no handler event and unchanged mount storage; a request issued after P returned must follow the new configuration. A schedule is non-trivial when P and R overlapped; distinct by scenario and (tag,op) order")
+	r := kit.NewResult(t, "c02-concurrent", seed, "one configuration change P (policy rewrite allow->deny / deny->allow, policy delete, token revoke, entity disable) runs concurrently with one request R that depends on it, under the storage-operation gate (all interleavings with <=2 preemptions up to a run cap, then seeded PCT schedules), after R was issued once sequentially (caches warm); R must either reach the handler and succeed, or be refused with no handler event and unchanged mount storage; a request issued after P returned must follow the new configuration. Second family R || R: 2-3 requests present the same token limited to n in {1,2} uses, gated on the token's sys/token/id record; at most n may reach the handler / succeed and the spent token is refused afterwards. A schedule is non-trivial when the requests overlapped; distinct by scenario and (tag,op) order")
 	defer r.Write(t)
 	scens := []c02Scen{
 		{"policy-allow-to-deny", true, false, false, ""},
@@ -1585,8 +1585,106 @@ func TestVerif_C02_Concurrent(t *testing.T) {
 				}
 			}
 		}
+		// R || R: k > n requests presenting the same token limited to n uses. Whatever the
+		// interleaving of their reads and writes of the token record, at most n may reach the
+		// handler; the others are refused without effect.
+		v.Policy("ccu", `path "kv/data/*" { capabilities = ["read","update","create"] }`, "")
+		for _, ul := range []struct{ n, k int }{{1, 2}, {1, 3}, {2, 3}} {
+			if kit.Tier() == "quick" && tx && ul.k == 3 && ul.n == 1 {
+				continue
+			}
+			useRun := func(pol kit.Policy, caseID string) (kit.Schedule, bool) {
+				n++
+				tk, resp, err := v.CreateToken(v.Root, map[string]any{"policies": []string{"ccu"}, "no_default_policy": true, "ttl": "1h", "num_uses": ul.n}, false, "")
+				if tk == nil {
+					t.Fatalf("verif: token create failed: %s", vErrStr(resp, err))
+				}
+				oks := make([]bool, ul.k)
+				strs := make([]string, ul.k)
+				var reqs []kit.Req
+				var tags []string
+				for i := 0; i < ul.k; i++ {
+					i := i
+					tags = append(tags, fmt.Sprintf("U%d", i))
+					reqs = append(reqs, kit.Req{Tag: tags[i], Fn: func() {
+						resp, err := v.Do(vReq{Op: logical.UpdateOperation, Path: fmt.Sprintf("kv/data/u%d", i), Token: tk.ID, Data: map[string]any{"v": fmt.Sprint(n)}})
+						oks[i], strs[i] = vOK(resp, err), vErrStr(resp, err)
+					}})
+				}
+				mark := v.Rec.Len()
+				sched := v.Probe.RunGated(reqs, pol, kit.GateOpts{Filter: func(e kit.Event) bool { return strings.Contains(e.Key, "sys/token/id/") }})
+				r.Eval(1)
+				if sched.TimedOut {
+					r.Inconc("%s: gate watchdog expired", caseID)
+					return sched, false
+				}
+				handlers, nok := 0, 0
+				for _, e := range v.Rec.Since(mark) {
+					if e.Kind == "handler" {
+						handlers++
+					}
+				}
+				for _, o := range oks {
+					if o {
+						nok++
+					}
+				}
+				r.Count("uselimit_schedules", 1)
+				if sched.Overlap() {
+					r.Count("uselimit_overlapping", 1)
+					r.Nontrivial(fmt.Sprintf("uselimit|%d|%d|%v|%s", ul.n, ul.k, tx, sched.Hash()))
+				}
+				wit := map[string]any{"uses": ul.n, "requests": ul.k, "transactional": tx, "schedule": sched.String(), "responses": strs, "handler_events": handlers}
+				if handlers > ul.n || nok > ul.n {
+					r.Violate("C02-use-count-exceeded", caseID, fmt.Sprintf("[%s] a token limited to %d use(s) presented by %d overlapping requests drove %d request(s) into the backend handler (%d non-error responses): %v", caseID, ul.n, ul.k, handlers, nok, strs), wit)
+					return sched, false
+				}
+				if handlers != nok {
+					r.Violate("C02-concurrent-inconsistent", caseID, fmt.Sprintf("[%s] %d handler events but %d non-error responses: %v", caseID, handlers, nok, strs), wit)
+					return sched, false
+				}
+				r.Count("uselimit_refused", ul.k-nok)
+				if handlers == ul.n {
+					mark = v.Rec.Len()
+					resp, err := v.Do(vReq{Op: logical.UpdateOperation, Path: "kv/data/extra", Token: tk.ID, Data: map[string]any{"v": "x"}})
+					if vOK(resp, err) || v.Rec.Len() != mark {
+						r.Violate("C02-use-count-exceeded", caseID, fmt.Sprintf("[%s] the token was accepted again after its %d use(s) were spent: %s", caseID, ul.n, vErrStr(resp, err)), wit)
+						return sched, false
+					}
+					r.Count("uselimit_spent_then_refused", 1)
+				}
+				return sched, r.NViolations() < 5
+			}
+			ex := &kit.Explorer{MaxPreempt: 2, MaxRuns: kit.N(25, 150)}
+			idx := 0
+			ex.Explore(func(pol kit.Policy) (kit.Schedule, bool) {
+				idx++
+				caseID := fmt.Sprintf("conc:%v:uses%d-of-%d:ex:%d", tx, ul.k, ul.n, idx)
+				if !kit.WantCase(caseID) {
+					return kit.Schedule{Diverged: true}, true
+				}
+				return useRun(pol, caseID)
+			})
+			for k := 0; k < kit.N(15, 120); k++ {
+				caseID := fmt.Sprintf("conc:%v:uses%d-of-%d:pct:%d:%d", tx, ul.k, ul.n, shard, k)
+				if !kit.WantCase(caseID) {
+					continue
+				}
+				rng := kit.NewRand(seed, uint64(7000000+ul.n*100000+ul.k*10000+shard*1000+k)*2+map[bool]uint64{true: 1, false: 0}[tx])
+				var tags []string
+				for i := 0; i < ul.k; i++ {
+					tags = append(tags, fmt.Sprintf("U%d", i))
+				}
+				if _, cont := useRun(kit.NewPCT(rng, tags, 3, 12), caseID); !cont {
+					break
+				}
+			}
+		}
 		v.Close()
 	}
+	r.Require("uselimit_overlapping", 40)
+	r.Require("uselimit_refused", 60)
+	r.Require("uselimit_spent_then_refused", 60)
 	r.Require("overlapping_schedules", 40)
 	r.Require("concurrent_R_authorised", 10)
 	r.Require("concurrent_R_refused", 10)
